@@ -258,6 +258,8 @@ where
         target_max_depth: Option<NonZeroUsize>,
         global_max_depth: &AtomicUsize,
     ) {
+        #[cfg(getong_stateright_verif)]
+        let max_count = crate::verif::block_limit().unwrap_or(max_count);
         let properties = model.properties();
 
         let mut current_max_depth = global_max_depth.load(Ordering::Relaxed);
